@@ -22,7 +22,7 @@ Oracles (all comparisons of the real code's output with its own earlier output):
 * **compile first, derive afterwards**: every builder call is recorded (random state + literal counter) so a
   never compiled *twin* of any node can be rebuilt.  A node derived from compiled ancestors must compile like
   its twin chain; a transforming copy of a compiled statement (cloned_traverse giving binds new values,
-  ClauseAdapter to an alias, replacement_traverse of a column, _annotate / _deannotate, pickle) must compile
+  ClauseAdapter to an alias, replacement_traverse of a column, _annotate / _deannotate) must compile
   like the same copy of the twin.
 * **compile does not modify**: a shallow snapshot of ``__dict__`` of every element
   reachable from the statement is taken before the first compilation and compared after
@@ -607,7 +607,6 @@ def query_trees(ctx, env, G, ds, dnames):
 
 def _transformations(env, G, rng_seed):
     """(name, fn(stmt) -> transformed copy) : copies that *change* something inside the statement"""
-    import pickle
     import random
 
     from sqlalchemy.sql import util as sql_util
@@ -647,17 +646,14 @@ def _transformations(env, G, rng_seed):
     def deannotate(st):
         return st._deannotate()
 
-    def pickled(st):
-        return pickle.loads(pickle.dumps(st))
-
     return [("cloned_traverse-new-bind-values", shift_binds), ("ClauseAdapter-to-alias", adapt_to_alias),
-            ("replacement_traverse-column", replace_column), ("annotate", annotate), ("deannotate", deannotate), ("pickle", pickled)]
+            ("replacement_traverse-column", replace_column), ("annotate", annotate), ("deannotate", deannotate)]
 
 
 def _twin_checks(ctx, env, G, ds, dnames, nodes, spec, rng, _value, sa_exc):
     """Compile first, derive afterwards: (1) a node that was derived from already compiled ancestors must compile
     like the same chain rebuilt from scratch without any intermediate compilation; (2) a transforming copy
-    (new bind values, adaptation to an alias, column replacement, (de)annotation, pickle) of a statement that has
+    (new bind values, adaptation to an alias, column replacement, (de)annotation) of a statement that has
     been compiled must compile like the same copy of its never compiled twin."""
     live = [i for i, n in enumerate(nodes) if not n["dirty"] and n["rebuild"] is not None]
     if not live:
